@@ -111,9 +111,10 @@ func runC11(rc *RunCtx) {
 	server := "plc-a:502"
 	var queries []coilQuery
 	var stepErr error
-	var fieldVals []modbus.FieldValue
-	var fieldErr error
-	var fieldReq *modbus.BuilderRequest
+	var builderReqs []modbus.BuilderRequest
+	var builderVals [][]modbus.FieldValue
+	var builderErrs []error
+	var builtDiff string
 	s.Go("operator", false, func(tk *Task) {
 		ctx := context.Background()
 		// one client for the whole session: responses are held across later exchanges on the same client
@@ -149,11 +150,16 @@ func runC11(rc *RunCtx) {
 		// 2. read back
 		if viaBuilder {
 			b := modbus.NewRequestBuilder(server, unit)
-			n := 0
 			for a := start; a < start+qty; a++ {
 				if qty <= 40 || a == start || a == start+qty-1 || t.Chance(1, max(1, qty/30)) {
 					b.Add(b.Coil(uint16(a)).Name(fmt.Sprintf("c%d", a)))
-					n++
+				}
+			}
+			// sometimes a second cluster of coil fields far enough away to need a request of its own
+			if far := start + qty + 2100; far+50 < 65536 && t.Chance(1, 2) {
+				for i := 0; i < 1+t.Choose(12); i++ {
+					a := far + t.Choose(50)
+					b.Add(b.Coil(uint16(a)).Name(fmt.Sprintf("d%d_%d", a, i)))
 				}
 			}
 			var reqs []modbus.BuilderRequest
@@ -168,24 +174,33 @@ func runC11(rc *RunCtx) {
 			default:
 				reqs, berr = b.ReadDiscreteInputsRTU()
 			}
-			if berr != nil || len(reqs) != 1 {
+			if berr != nil || len(reqs) < 1 {
 				stepErr = fmt.Errorf("builder produced %d requests, error %v", len(reqs), berr)
 				return
 			}
-			fieldReq = &reqs[0]
-			switch q := reqs[0].Request.(type) { // constructors draw the transaction id from the global math/rand
-			case *packet.ReadCoilsRequestTCP:
-				q.TransactionID = 9
-			case *packet.ReadDiscreteInputsRequestTCP:
-				q.TransactionID = 9
-			}
-			resp, err := do(reqs[0].Request)
-			if err != nil {
-				stepErr = fmt.Errorf("read failed: %w", err)
-				return
+			sortBuilderRequests(reqs)
+			builderReqs = reqs
+			resps := make([]packet.Response, len(reqs))
+			for i := range reqs {
+				switch q := reqs[i].Request.(type) { // constructors draw the transaction id from the global math/rand
+				case *packet.ReadCoilsRequestTCP:
+					q.TransactionID = uint16(9 + i)
+				case *packet.ReadDiscreteInputsRequestTCP:
+					q.TransactionID = uint16(9 + i)
+				}
+				resp, err := do(reqs[i].Request)
+				if err != nil {
+					stepErr = fmt.Errorf("read failed: %w", err)
+					return
+				}
+				resps[i] = resp
 			}
 			interlude()
-			fieldVals, fieldErr = reqs[0].ExtractFields(resp, true)
+			for i := range reqs {
+				vals, err := reqs[i].ExtractFields(resps[i], true)
+				builderVals = append(builderVals, vals)
+				builderErrs = append(builderErrs, err)
+			}
 			return
 		}
 		fc := byte(1)
@@ -227,10 +242,32 @@ func runC11(rc *RunCtx) {
 		for _, d := range []int{0, 1, 7, 8, 100} {
 			addrs[start+8*payloadBytes+d] = true
 		}
+		// the same response assembled in code (as a server implementation would, with or without the byte count field
+		// filled in) must answer every lookup exactly like the parsed one
+		payload := coilPayload(resp)
+		var built []func(uint16) (bool, error)
+		for _, bc := range []uint8{uint8(len(payload)), 0} {
+			if readInputs {
+				r := packet.ReadDiscreteInputsResponseTCP{ReadDiscreteInputsResponse: packet.ReadDiscreteInputsResponse{UnitID: unit, InputsByteLength: bc, Data: append([]byte(nil), payload...)}}
+				built = append(built, func(a uint16) (bool, error) { return r.IsInputSet(uint16(start), a) })
+			} else {
+				r := packet.ReadCoilsResponseRTU{ReadCoilsResponse: packet.ReadCoilsResponse{UnitID: unit, CoilsByteLength: bc, Data: append([]byte(nil), payload...)}}
+				built = append(built, func(a uint16) (bool, error) { return r.IsCoilSet(uint16(start), a) })
+			}
+		}
 		for a := start - 100; a <= start+8*payloadBytes+100; a++ {
 			if addrs[a] && a >= 0 && a < 65536 {
 				v, err := ask(uint16(a))
 				queries = append(queries, coilQuery{addr: uint16(a), got: v, err: err})
+				for bi, f := range built {
+					if payload == nil {
+						break
+					}
+					bv, berr := f(uint16(a))
+					if (bv != v || (berr != nil) != (err != nil)) && builtDiff == "" {
+						builtDiff = fmt.Sprintf("address %d: parsed response says (%v, err=%v), the same response assembled in code (byte count field set=%v) says (%v, err=%v)", a, v, err != nil, bi == 0, bv, berr != nil)
+					}
+				}
 			}
 		}
 	})
@@ -255,23 +292,30 @@ func runC11(rc *RunCtx) {
 	dev := dn.Device(server, unit)
 	multi := fmt.Sprintf("multibyte=%v", payloadBytes > 1)
 	if viaBuilder {
-		if fieldErr != nil {
-			rc.Violate("extract_error", sigBase+"|builder", "coil extraction failed: %v", fieldErr)
-			return
-		}
-		if len(fieldVals) != len(fieldReq.Fields) {
-			rc.Violate("missing_field", sigBase+"|builder", "%d coil fields, %d values", len(fieldReq.Fields), len(fieldVals))
-			return
-		}
-		for _, fv := range fieldVals {
-			want := dev.Bit(tab, fv.Field.Address)
-			if fv.Error != nil || fv.Value != any(want) {
-				rc.Violate("wrong_coil_value", fmt.Sprintf("%s|builder|%s|%s", sigBase, multi, coilFormula(dev, tab, int(fieldReq.StartAddress), builderQuantity(fieldReq), fieldVals)),
-					"coil field at %d (request window starts at %d): extracted %v (err %v), the device's coil is %v", fv.Field.Address, fieldReq.StartAddress, fv.Value, fv.Error, want)
+		for i := range builderReqs {
+			fieldReq := &builderReqs[i]
+			fieldVals, fieldErr := builderVals[i], builderErrs[i]
+			if fieldErr != nil {
+				rc.Violate("extract_error", sigBase+"|builder", "coil extraction failed for request %d of %d (window starts at %d, %d fields): %v; first values %v", i, len(builderReqs), fieldReq.StartAddress, len(fieldReq.Fields), fieldErr, firstFV(fieldVals))
 				return
+			}
+			if len(fieldVals) != len(fieldReq.Fields) {
+				rc.Violate("missing_field", sigBase+"|builder", "%d coil fields, %d values", len(fieldReq.Fields), len(fieldVals))
+				return
+			}
+			for _, fv := range fieldVals {
+				want := dev.Bit(tab, fv.Field.Address)
+				if fv.Error != nil || fv.Value != any(want) {
+					rc.Violate("wrong_coil_value", fmt.Sprintf("%s|builder|multibyte=%v|%s", sigBase, builderQuantity(fieldReq) > 8, coilFormula(dev, tab, int(fieldReq.StartAddress), builderQuantity(fieldReq), fieldVals)),
+						"coil field at %d (request window starts at %d): extracted %v (err %v), the device's coil is %v", fv.Field.Address, fieldReq.StartAddress, fv.Value, fv.Error, want)
+					return
+				}
 			}
 		}
 		return
+	}
+	if builtDiff != "" {
+		rc.Violate("built_response_differs", sigBase, "%s", builtDiff)
 	}
 	reported := map[string]bool{}
 	for _, q := range queries {
@@ -363,4 +407,30 @@ func coilFormula(dev *Device, tab, start, qty int, vs []modbus.FieldValue) strin
 		}
 	}
 	return "observed=byte(len-1-i/8).bit(i%8)"
+}
+
+func firstFV(vs []modbus.FieldValue) string {
+	out := ""
+	for i, v := range vs {
+		if i >= 3 {
+			break
+		}
+		out += fmt.Sprintf("[%s@%d=%v err=%v]", v.Field.Name, v.Field.Address, v.Value, v.Error)
+	}
+	return out
+}
+
+// coilPayload returns the payload bytes of a parsed FC1/FC2 response (nil for anything else).
+func coilPayload(resp packet.Response) []byte {
+	switch r := resp.(type) {
+	case *packet.ReadCoilsResponseTCP:
+		return r.Data
+	case *packet.ReadCoilsResponseRTU:
+		return r.Data
+	case *packet.ReadDiscreteInputsResponseTCP:
+		return r.Data
+	case *packet.ReadDiscreteInputsResponseRTU:
+		return r.Data
+	}
+	return nil
 }
